@@ -105,6 +105,8 @@ class RunBundler:
         # a seq_num counter per stream
         self._sequence_counters: dict[Any, int] = dict()  # noqa: C408
         self._sequence_counters_copy: dict[Any, int] = dict()  # for if we redo data-points  # noqa: C408
+        # streams whose events are never re-taken after a rewind (interruptions, monitors, collect)
+        self._unreplayed_streams: set[Any] = set()
         self._monitor_params: dict[Subscribable, tuple[Callback, dict]] = dict()  # noqa: C408  # cache of {obj: (cb, kwargs)}
         # a cache of stream_resource uid to the data_keys that stream_resource collects for
         self._stream_resource_data_keys: dict[str, Iterable[str]] = dict()  # noqa: C408
@@ -153,6 +155,7 @@ class RunBundler:
                 name="interruptions",
                 data_keys={"interruption": dk},
             )
+            self._unreplayed_streams.add("interruptions")
             self._interruptions_desc = descriptor_bundle.descriptor_doc
             self._interruptions_compose_event = descriptor_bundle.compose_event
             await self.emit(DocumentNames.descriptor, self._interruptions_desc)
@@ -437,6 +440,7 @@ class RunBundler:
         await self._ensure_cached(obj)
 
         stream_bundle = await self._prepare_stream(name, {obj: self._describe_cache[obj]})
+        self._unreplayed_streams.add(name)
         compose_event = stream_bundle[1]
 
         def emit_event(readings: Optional[dict[str, Reading]] = None, *args, **kwargs):
@@ -482,8 +486,11 @@ class RunBundler:
             self.emit_sync(DocumentNames.event, doc)
 
     def rewind(self):
+        # events of these streams were emitted for good: keep their live counters
+        live_counters = {k: v for k, v in self._sequence_counters.items() if k in self._unreplayed_streams}
         self._sequence_counters.clear()
         self._sequence_counters.update(self._sequence_counters_copy)
+        self._sequence_counters.update(live_counters)
         # make sure we do not forget about streams we roll back to the
         # very beginning of
         for desc_key in self._descriptor_objs:
@@ -779,6 +786,7 @@ class RunBundler:
             )
 
         for stream_name, stream_data_keys in describe_collect_items:
+            self._unreplayed_streams.add(stream_name)
             if stream_name not in self._descriptor_objs or (
                 collect_object not in self._descriptor_objs[stream_name]
             ):
@@ -1075,7 +1083,9 @@ class RunBundler:
 
         # If there is not a stream then we should be using an old-style doubly nested
         # and we need to describe_collect and prepare the nested streams.
-        if not stream_name:
+        if stream_name:
+            self._unreplayed_streams.add(stream_name)
+        else:
             if frozenset(collect_objects) not in self._local_descriptors or (
                 collect_objects[0] not in self._local_descriptors
             ):
